@@ -225,7 +225,9 @@ def exTests : List Str :=
 /-- a message, a wait with timeout left by two tests, an unconditional edge (default) and a
 "No Response" edge, a join into a group split, a value split, joins, a `start_new_flow` row left
 on Completed and on Expired, a `call_webhook` row left on Success and unconditionally (= Failure), a
-`transfer_airtime` row left on Failure and on Success (any case of the letters), a `hard_exit`, a `go_to` with two
+`transfer_airtime` row left on Failure and on Success (any case of the letters), a `split_random`
+row with a named bucket that is redirected later, an unnamed bucket and a second named bucket, a
+`hard_exit`, a `go_to` with two
 edges back to the first row (a cycle), a row after them with blank `from` (it follows the last
 node-producing row), a `loose_exit` -/
 def exRows : List CoreSheet.CRow :=
@@ -243,6 +245,10 @@ def exRows : List CoreSheet.CRow :=
     mkFix "h" "call_webhook" [("f", "expired"), ("fc", "")] "hook H" (some "res"),
     mkFix "p" "transfer_airtime" [("h", "Success")] "air P" (some "res"),
     mkRow "pf" "send_message" [("h", ""), ("p", "failure"), ("p", "SUCCESS")] (some "PF"),
+    mkRow "s" "split_random" [("pf", "")] none,
+    mkRow "s1" "send_message" [("s", "A")] (some "S1"),
+    mkRow "s2" "send_message" [("s", "")] (some "S2"),
+    mkRow "s3" "send_message" [("s", "A"), ("s", "B")] (some "S3"),
     mkRow "" "hard_exit" [("g", "")] none,
     mkRow "" "go_to" [("z", ""), ("v", "")] none "" "" "" "" "" none ["a"],
     mkRow "q" "send_message" [("", "")] (some "Q"),
@@ -255,25 +261,25 @@ def bothTraces (rows : List CoreSheet.CRow) (env : Nat → Nat) (n : Nat) : Opti
   | .ok out, .ok r => some (trace ⟨false, true⟩ (Compile.renderOut out) env n, trace ⟨false, true⟩ r env n)
   | _, _ => none
 
-/-- non-vacuity: the sheet is in the fragment, the compiler model compiles it (15 nodes), the
-reference interpretation exists (15 nodes) — and, as the theorem says, the traces agree (checked
-here for three answer streams, the third one passing the three rows with fixed outcomes) -/
+/-- non-vacuity: the sheet is in the fragment, the compiler model compiles it (19 nodes), the
+reference interpretation exists (19 nodes) — and, as the theorem says, the traces agree (checked
+here for three answer streams, the third one passing the three rows with fixed outcomes and the `split_random` row) -/
 example : CoreSheet.inFragment exRows = true ∧
     (∃ out, Compile.compile RefFlow.noArgsTests exTests (exRows.map CoreSheet.toEvent) = .ok out ∧
-      out.nodes.length = 15) ∧
-    (∃ r, RefFlow.refFlow (exRows.map CoreSheet.toRRow) = .ok r ∧ r.nodes.length = 15) ∧
+      out.nodes.length = 19) ∧
+    (∃ r, RefFlow.refFlow (exRows.map CoreSheet.toRRow) = .ok r ∧ r.nodes.length = 19) ∧
     (bothTraces exRows (fun k => k) 8).map (fun p => decide (p.1 = p.2)) = some true ∧
     (bothTraces exRows (fun k => 2 * k + 1) 8).map (fun p => decide (p.1 = p.2)) = some true ∧
-    (bothTraces exRows (fun k => if k = 0 then 3 else if k = 2 then 1 else 0) 12).map
-      (fun p => decide (p.1 = p.2 ∧ p.1.length = 12)) = some true := by
+    (bothTraces exRows (fun k => if k = 0 then 3 else if k = 2 then 1 else 0) 15).map
+      (fun p => decide (p.1 = p.2 ∧ p.1.length = 15)) = some true := by
   refine ⟨by decide +kernel, ?_, ?_, by decide +kernel, by decide +kernel, by decide +kernel⟩
   · have h : (match Compile.compile RefFlow.noArgsTests exTests (exRows.map CoreSheet.toEvent) with
-        | .ok out => decide (out.nodes.length = 15) | .error _ => false) = true := by decide +kernel
+        | .ok out => decide (out.nodes.length = 19) | .error _ => false) = true := by decide +kernel
     split at h
     · rename_i out ho; exact ⟨out, ho, by simpa using h⟩
     · cases h
   · have h : (match RefFlow.refFlow (exRows.map CoreSheet.toRRow) with
-        | .ok r => decide (r.nodes.length = 15) | .error _ => false) = true := by decide +kernel
+        | .ok r => decide (r.nodes.length = 19) | .error _ => false) = true := by decide +kernel
     split at h
     · rename_i r hr; exact ⟨r, hr, by simpa using h⟩
     · cases h
@@ -294,6 +300,22 @@ theorem fragment_needs_same_action :
 /-- clause "a row with fixed outcomes performs its own action, as the documentation describes it" -/
 theorem fragment_needs_same_own_action :
     refuted [mkFix "f" "start_new_flow" [("start", "")] "enter F" none (some "enter G")] 1 = true := by
+  decide +kernel
+
+/-- clause "a bucket of a `split_random` row is not given a name the compiler generates" (`Bucket N`):
+the compiler takes the named edge for the unnamed bucket it numbered so, the documentation for a new
+bucket -/
+theorem fragment_needs_no_generated_bucket_name :
+    refuted [mkRow "r" "split_random" [("start", "")] none,
+             mkRow "x" "send_message" [("r", "")] (some "X"),
+             mkRow "y" "send_message" [("r", "Bucket 2")] (some "Y")] 3 = true := by
+  decide +kernel
+
+/-- the same clause for the names the reference interpretation generates (`#n`) -/
+theorem fragment_needs_no_hash_bucket_name :
+    refuted [mkRow "r" "split_random" [("start", "")] none,
+             mkRow "x" "send_message" [("r", "")] (some "X"),
+             mkRow "y" "send_message" [("r", "#0")] (some "Y")] 3 = true := by
   decide +kernel
 
 /-- clause "no node identifier is given": a given `_nodeId` that collides with an identifier the
